@@ -16,6 +16,66 @@ def names_of(text):
     return sorted(set(re.findall(r"[A-Za-z_][A-Za-z_0-9]*", text)))
 
 
+def same_named_inline(ctx):
+    """Inline objects are scoped to their parent: two packets may each declare an inline object of the same name with
+    different members.  The wire specification (and the validator) identify packets by name, so such programs are decided
+    by a renaming argument instead: the program A with distinct inline names is validated above; the dissector of the
+    program B = A with two inline objects given one name must be A's dissector with the same renaming applied."""
+    import copy
+    rng = random.Random(ctx.seed * 61 + 3)
+    n = 25 if ctx.tier == "quick" else 300
+    cases = []
+    tries = 0
+    while len(cases) < n and tries < n * 20:
+        tries += 1
+        p = dslgen.gen_program(rng, dslgen.Cfg(max_packets=4))
+        tops = [(pi, fi) for pi, pk in enumerate(p["packets"]) for fi, f in enumerate(pk["fields"]) if f["kind"] == "inline"]
+        pkts = sorted({pi for pi, _ in tops})
+        if len(pkts) < 2:
+            continue
+        a = rng.choice(tops)
+        b = rng.choice([t for t in tops if t[0] != a[0]])
+        fa, fb = p["packets"][a[0]]["fields"][a[1]], p["packets"][b[0]]["fields"][b[1]]
+        if fa["name"] == fb["name"] or "Shared" in dslgen.render(p):
+            continue
+        q = copy.deepcopy(p)
+        q["packets"][a[0]]["fields"][a[1]]["name"] = "Shared"
+        q["packets"][b[0]]["fields"][b[1]]["name"] = "Shared"
+        cases.append((dslgen.render(p), dslgen.render(q), fa["name"], fb["name"]))
+    if not cases:
+        return
+    ra = harness.run_ops([{"op": "gen", "text": a, "order": ["lua"], "fresh": True} for a, _, _, _ in cases])
+    rb = harness.run_ops([{"op": "gen", "text": b, "order": ["lua"], "fresh": True} for _, b, _, _ in cases])
+    sn = harness.run_ops([{"op": "strcase", "names": [x, y, "Shared"]} for _, _, x, y in cases])
+    for (a, b, x, y), ga, gb, names in zip(cases, ra, rb, sn):
+        fa = ((ga.get("runs") or [{}])[0]).get("files")
+        fb = ((gb.get("runs") or [{}])[0]).get("files")
+        if not fa or not fb:
+            if bool(fa) != bool(fb):
+                ctx.finding("lua/same-named-inline-objects/accept-differs", "giving two inline objects of different packets one name changes whether the DSL compiles",
+                            {"dsl_distinct": a, "dsl_same_name": b})
+            continue
+        ctx.count("same_named_inline_pairs")
+        table = {k: v[0] for k, v in names.get("names", {}).items()}
+
+        def rename(text):
+            for old in (x, y):
+                text = re.sub(r"\b%s\b" % re.escape(old), "Shared", text)
+                text = re.sub(r"(?<![A-Za-z0-9])%s(?![A-Za-z0-9])" % re.escape(table.get(old, old)), table.get("Shared", "shared"), text)
+            return text
+        ta = {rename(k): rename(v) for k, v in fa.items()}
+        if ta != fb:
+            k = sorted(set(ta) | set(fb))[0]
+            la, lb = ta.get(k, "").split("\n"), fb.get(k, "").split("\n")
+            first = next((i for i, (u, v) in enumerate(zip(la, lb)) if u != v), min(len(la), len(lb)))
+            ctx.finding("lua/same-named-inline-objects", "two inline objects of different packets share a name: the dissector differs from the dissector of the "
+                        "same program with distinct names (first difference at line %d: %r vs %r)" % (first + 1, (la + [""])[first][:80], (lb + [""])[first][:80]),
+                        {"dsl_distinct": a, "dsl_same_name": b, "renamed": [x, y], "line": first + 1,
+                         "expected": "\n".join(la[max(0, first - 3):first + 4]), "emitted": "\n".join(lb[max(0, first - 3):first + 4])})
+        else:
+            ctx.count("same_named_inline_pairs_equal")
+
+
 def run_c15(ctx):
     check_obligations(ctx, "C15")
     n = 60 if ctx.tier == "quick" else 1000
@@ -68,6 +128,7 @@ def run_c15(ctx):
                 pending.setdefault(sig, cand)
     for sig, cand in list(found_input.items()) + [(k, v) for k, v in pending.items() if k not in found_input]:
         ctx.finding(*cand)
+    same_named_inline(ctx)
     if ctx.broken and not ctx.violations:
         ctx.finding("obligation/C15", "; ".join(ctx.broken)[:500], {"broken": ctx.broken}, False)
     ctx.cov.update({"disagreements_checked": ctx.cov.get("reasons_examined", 0), "dsl_texts": len(texts),
